@@ -55,6 +55,15 @@ Effects(r) ==
       [] OTHER                               -> {"benign"}
 
 
+\* The weak signature covers every byte of the hashed range except EXACTLY the signature area [slo, shi) (the 72-byte
+\* (signature) entry, blanked before hashing); inside the area the last 64 bytes are the RSA value.  Nothing else -- in
+\* particular not the position of the area relative to the 64 KiB digest units the hash is computed in -- matters.
+SigClass(off, slo, shi) == IF off < slo \/ off >= shi THEN "signed"
+                           ELSE IF off < slo + 8 THEN "sig_header" ELSE "sig_value"
+SigMustFail(off, slo, shi) == SigClass(off, slo, shi) \in {"signed", "sig_value"}
+\* The version-4 digests are functions of the whole header / table bytes: an intact table verifies whatever its size is
+\* relative to any unit the implementation streams it in (Trace_Integrity!T_Intact applies to every archive size).
+
 \* verdict over OBSERVED outcomes (used by Trace_Integrity): the judgement of Integrity!Sound on logged facts
 ObsHolds(c, r, detected, unchanged) == Protected(c, r) => (detected \/ unchanged)
 =============================================================================
